@@ -5,7 +5,7 @@ STATIC = {
         "guard": "verif",
         "enable": "go build -tags verif (harness module /verif/harness with replace grol.io/grol => /repo)",
         "baseline_off_cmd": "cd /repo && GOFLAGS=-mod=mod GOPROXY=off go test -json -vet=off -count=1 -timeout 25m ./...",
-        "source_commits": ["ca5f1bc", "aa6a7c4", "e64deed", "824567c", "efa8374", "375d5fd", "ad39916", "0ba67b2"],
+        "source_commits": ["ca5f1bc", "aa6a7c4", "e64deed", "824567c", "efa8374", "375d5fd", "ad39916", "0ba67b2", "339fbc6"],
         "add_only": True,
     },
     "engines": [
